@@ -1000,6 +1000,72 @@ func ext۰proto۰Marshal(fr *frame, args []value) value {
 	return tuple{[]value{uint8(0xfb), uint8('P'), uint8('B'), uint8(id >> 16), uint8(id >> 8), uint8(id)}, iface{}}
 }
 
+// encoding/json.Marshal: the identity token, except that a NaN or infinite float
+// anywhere in the value makes the call fail as the real encoder does
+// (UnsupportedValueError); a symbolic float is decided by a branch.
+func ext۰json۰Marshal(fr *frame, args []value) value {
+	if jsonUnsupported(fr, args[0], map[*value]bool{}) {
+		return tuple{[]value(nil), fr.errorValue("json: unsupported value: NaN or Inf")}
+	}
+	return ext۰proto۰Marshal(fr, args)
+}
+
+func jsonUnsupported(fr *frame, v value, seen map[*value]bool) bool {
+	switch x := v.(type) {
+	case float64:
+		return math.IsNaN(x) || math.IsInf(x, 0)
+	case float32:
+		return math.IsNaN(float64(x)) || math.IsInf(float64(x), 0)
+	case *symv:
+		if x.K == types.Float64 || x.K == types.Float32 {
+			ctx := fr.i.st.ctx
+			return fr.i.st.branch(ctx.Or(ctx.FIsNaN(x.T), ctx.FIsInf(x.T)))
+		}
+	case structure:
+		for _, f := range x {
+			if jsonUnsupported(fr, f, seen) {
+				return true
+			}
+		}
+	case array:
+		for _, f := range x {
+			if jsonUnsupported(fr, f, seen) {
+				return true
+			}
+		}
+	case []value:
+		for _, f := range x {
+			if jsonUnsupported(fr, f, seen) {
+				return true
+			}
+		}
+	case tuple:
+		for _, f := range x {
+			if jsonUnsupported(fr, f, seen) {
+				return true
+			}
+		}
+	case iface:
+		return jsonUnsupported(fr, x.v, seen)
+	case *value:
+		if x == nil || seen[x] {
+			return false
+		}
+		seen[x] = true
+		return jsonUnsupported(fr, *x, seen)
+	case *smap:
+		if x == nil {
+			return false
+		}
+		for _, e := range x.entries {
+			if !e.deleted && jsonUnsupported(fr, e.val, seen) {
+				return true
+			}
+		}
+	}
+	return false
+}
+
 func ext۰proto۰Unmarshal(fr *frame, args []value) value {
 	st := fr.i.st
 	b := args[0].([]value)
@@ -1088,7 +1154,7 @@ func init() {
 	externals["google.golang.org/protobuf/proto.Marshal"] = ext۰proto۰Marshal
 	externals["google.golang.org/protobuf/proto.Unmarshal"] = ext۰proto۰Unmarshal
 	// encoding/json of whole messages: identity token (what JSON loses is outside the claims that use it)
-	externals["encoding/json.Marshal"] = ext۰proto۰Marshal
+	externals["encoding/json.Marshal"] = ext۰json۰Marshal
 	externals["encoding/json.Unmarshal"] = ext۰proto۰Unmarshal
 	// randomness and unique ids: environment stubs
 	externals["math/rand.Seed"] = extNoop
